@@ -359,4 +359,6 @@ RULES = [
     ("C10.R3", "stale tags: HP/PS/PC defined on every path to the write", r3),
     ("C10.R4", "tie and empty rejection; tuple layouts; tag values", r4),
 ]
-FLOORS = {"C10.R1": 9, "C10.R2": 6, "C10.R3": 8, "C10.R4": 15}
+# instance floors: about 60% of the instances confirmed by hand on the reference tree -- a rule that suddenly matches far fewer
+# sites fails the run (exit 2); a clean-up that merges two sites into one does not
+FLOORS = {"C10.R1": 5, "C10.R2": 3, "C10.R3": 4, "C10.R4": 9}
